@@ -119,6 +119,98 @@ def model_correspondence(ctx, n):
     return len(pairs)
 
 
+MB_STRINGS = ['h\u00e9llo-w\u00f6rld', '\u0130', '\u65e5\u672c\u8a9e', 'a\U0001f600b', 'abc', '']
+
+
+def directed_shapes():
+    """crash-prone shapes enumerated rather than sampled: substring with every offset pair on strings with multi-byte
+    characters; parameterised rules called with every arity 0..3 against 1..2 declared names, also a repeated name"""
+    out = []
+    doc = {'s': MB_STRINGS, 'one': MB_STRINGS[0], 'o': {'a': 1, 'b': 2}, 'n': 3}
+    d = json.dumps(doc, ensure_ascii=False)
+    for i in range(0, 7):
+        for j in range(0, 9):
+            out.append(('substring', 'let sb = substring(s[*], %d, %d)\nlet sc = substring(one, %d, %d)\nrule r {\n  %%sb exists\n  %%sc !empty\n}\n' % (i, j, i, j), d))
+    decls = ['rule f(p) {\n  %p exists\n}\n', 'rule f(p, q) {\n  %p exists\n  %q exists\n}\n', 'rule f(p, p) {\n  %p exists\n}\n',
+             'rule f(p, q, p) {\n  %p exists\n  %q exists\n}\n']
+    calls = ['f()', 'f(o)', 'f(o, n)', 'f(o, n, 1)', 'f(o, n, 1, "x")', 'f(o.a, o.a)']
+    for dcl in decls:
+        for c in calls:
+            out.append(('arity', dcl + 'rule r {\n  %s\n}\n' % c, d))
+            out.append(('arity', dcl + 'rule r {\n  n == 3\n  o {\n    %s or a == 1\n  }\n}\n' % c.replace('(o', '(this').replace('n', 'a'), d))
+    return out
+
+
+def run_directed(ctx):
+    shapes = directed_shapes()
+    pairs = [{'rules': r, 'data': d} for _, r, d in shapes]
+    out, errs = corr.run(pairs, ctx.wd, 'c08dir', loader='cli')
+    if errs:
+        raise ToolingError('model evaluation failed: %r' % (errs[:1],))
+    stats = {}
+    for o, p, sh in zip(out, pairs, shapes):
+        key = sh[0] + ':' + (o['kind'] if o['kind'] != 'compared' else o['verdict'])
+        stats[key] = stats.get(key, 0) + 1
+        if o['kind'] == 'died_unparsed':
+            ctx.failing('the implementation crashed on an input that does not even parse/load', {'class': 'crash', 'rules': p['rules'], 'data': p['data'], 'raw': str(o.get('raw'))[:300]}, found=True)
+            continue
+        if o['kind'] != 'compared':
+            continue
+        v = o['verdict']
+        if v in ('VAgreePanic', 'VAgreeNonTerm') or 'panic' in str(o.get('impl')) or o.get('impl') == 'abort':
+            classify_crash(ctx, '%s: evaluation crashes (%s; model: %s)' % (sh[0], str(o.get('impl'))[:200], v), {'rules': p['rules'], 'data': p['data'], 'impl': o.get('impl'), 'model': v}, p['rules'])
+        elif re.search(r'VDis|VModelOOF|NoModelOutput', v):
+            ctx.failing('model and implementation disagree on a directed %s program (%s)' % (sh[0], v),
+                        {'class': 'eval-correspondence', 'verdict': v, 'rules': p['rules'], 'data': p['data']}, found=False)
+    # the same programs through the binary (plain and structured)
+    jobs, meta = [], []
+    for k, (kind, r, d) in enumerate(shapes):
+        dd = os.path.join(ctx.wd, 'dir%d' % k)
+        e2e.write_files(dd, {'r.guard': r, 'd.json': d})
+        jobs.append({'args': ['validate', '-r', 'r.guard', '-d', 'd.json'], 'cwd': dd}); meta.append(k)
+        jobs.append({'args': ['validate', '-r', 'r.guard', '-d', 'd.json', '--structured', '-o', 'json', '-S', 'none'], 'cwd': dd}); meta.append(k)
+    for k, (code, so, se) in zip(meta, e2e.run_many(jobs, timeout=30)):
+        if code == 'timeout' or code in CRASH_CODES or (isinstance(code, int) and code < 0):
+            classify_crash(ctx, '%s: validate crashes with status %s: %s' % (shapes[k][0], code, se.decode('utf-8', 'replace').split('\n')[0][:160]),
+                           {'rules': shapes[k][1], 'data': shapes[k][2], 'stderr': se[:600].decode('utf-8', 'replace')}, shapes[k][1])
+    ctx.coverage['directed_shapes'] = stats
+    ctx.coverage['evaluations'] += len(pairs) + len(jobs)
+    return len(pairs)
+
+
+PREFIX_TEXTS = [
+    'let a = Resources.*[ Type == "AWS::S3::Bucket" ]\nrule r when %a !empty {\n  %a.Properties.Name == /^b/ <<named \'b\'>>\n  %a.Properties {\n    Size in r[1, 10) or\n    Tags[*].Key == "k\\"q"\n  }\n}\n',
+    "rule chk(p, q) {\n  %p in ['a', \"b\"]\n  some %q[ keys == /x/ ] !empty\n}\nrule s {\n  chk(a.b, \"lit\")\n  not r or\n  AWS::X::Y when x exists {\n    y == {a: 1, 'b': [1.5, null, true]}\n  }\n}\n",
+    'a.b[0].*.c[*] == 1 << msg\n two >>\nlet v := count(a."q r")\n# comment "x\nx IN [1,2] |OR| y !EXISTS\nz is_string\n',
+]
+
+
+def run_prefixes(ctx):
+    """every prefix of a few rule texts that use all the token classes: the parser accepts it or rejects it with a line and a
+    column (and never crashes)"""
+    ops, meta = [], []
+    for t in PREFIX_TEXTS:
+        for i in range(len(t) + 1):
+            ops.append({'op': 'ast', 'rules': t[:i]}); meta.append(t[:i])
+            if i < len(t):
+                ops.append({'op': 'ast', 'rules': t[:i] + t[i + 1:]}); meta.append(t[:i] + t[i + 1:])      # one character deleted
+    res = impl.run_ops_parallel(ops, ctx.wd, 'c08pre')
+    nrej = 0
+    for text, r in zip(meta, res):
+        a = r.get('res') if isinstance(r, dict) else None
+        if not a:
+            classify_crash(ctx, 'the parser crashes on a truncated rules file: %s' % str(r)[:200], {'rules': text, 'data': '', 'command': 'parse'}, None)
+        elif a[0] == 'Err':
+            nrej += 1
+            msg = ct.S(a[2]) if not isinstance(a[2], str) else a[2]
+            if not re.search(r'at line \d+ at column \d+', msg):
+                ctx.failing('a rules file the grammar rejects is reported without a line and column: %s' % msg[:200], {'class': 'parse-diagnostic', 'rules': text, 'message': msg[:400]}, found=True)
+    ctx.coverage['prefix_and_deletion_texts'] = len(ops)
+    ctx.coverage['prefix_and_deletion_rejected'] = nrej
+    ctx.coverage['evaluations'] += len(ops)
+    return len(ops)
+
+
 def fuzz(ctx, n):
     rng = random.Random(ctx.seed * 307 + 9)
     jobs, meta = [], []
@@ -222,7 +314,9 @@ def run(ctx):
     ctx.coverage['inventory_panic_sites'] = len(cur)
     n1 = model_correspondence(ctx, 2500 if thorough else 300)
     n2 = fuzz(ctx, 1500 if thorough else 150)
-    ctx.coverage['distinct_nontrivial'] = n1 + n2
+    n3 = run_directed(ctx)
+    n4 = run_prefixes(ctx)
+    ctx.coverage['distinct_nontrivial'] = n1 + n2 + n3 + n4
     ctx.coverage['rule'] = ('correspondence: generated programs with every feature on (rule-reference cycles 4%, captures, functions with arguments that select nothing or have the '
                             'wrong type, literal left-hand sides, chained filters, filters after this/index) x documents; fuzz: generated (rules, data, test spec, payload, parameter '
                             'file) with 1..3 text mutations applied to one of them, each through validate (3 modes), parse-tree, test, rulegen, --payload and run_checks')
